@@ -206,6 +206,12 @@ func (g *heapGen) newObject(forceAlign bool) *Step {
 		L = []int{16389, 20000, 24577, 16384, 70001}[g.rng.Intn(5)]
 	}
 	alpha := g.alphaFor(al)
+	if al == 0 && g.mode != "C19" && g.rng.Intn(5) == 0 {
+		// one protein object in five is written with letters that are nucleotide codes too: whoever re-detects the
+		// alphabet instead of using the declared one (a command given --alphabet aa, a reader told the type of its data)
+		// then treats it as nucleotides - N for X, nucleotide tables, nucleotide wildcards
+		alpha = []byte("ACGTNDKSacgn-")
+	}
 	if g.mode == "C05" {
 		alpha = []byte("ACGTacgtuURYN-")
 	}
@@ -755,7 +761,7 @@ func (g *heapGen) args(h *heapRun, op string, recv int, o *obj) *Step {
 		if g.rng.Intn(12) == 0 {
 			a["len"] = f64(1<<30 + g.rng.Intn(2)) // the largest integers (see hugeLen)
 		}
-		a["repl"] = toIface(s2i([]string{"", "AMBIG", "GAP", "MAJ", "Z", "-", "zz", "MAJ"}[g.rng.Intn(8)]))
+		a["repl"] = toIface(s2i([]string{"", "AMBIG", "GAP", "MAJ", "Z", "-", "zz", "MAJ", "n", "x"}[g.rng.Intn(10)]))
 		a["nogap"], a["noref"] = g.rng.Intn(2) == 0, g.rng.Intn(2) == 0
 		if len(ref) == 0 && g.rng.Intn(4) != 0 {
 			a["noref"] = false
@@ -777,7 +783,7 @@ func (g *heapGen) args(h *heapRun, op string, recv int, o *obj) *Step {
 			ps = append(ps, f64(g.boundary(L)))
 		}
 		a["pos"] = ps
-		a["repl"] = toIface(s2i([]string{"", "AMBIG", "GAP", "GAP", "MAJ", "Z"}[g.rng.Intn(6)]))
+		a["repl"] = toIface(s2i([]string{"", "AMBIG", "GAP", "GAP", "MAJ", "Z", "q"}[g.rng.Intn(7)]))
 		a["nogap"], a["noref"] = g.rng.Intn(2) == 0, len(ref) > 0 && g.rng.Intn(3) == 0
 	case "MaskOccurences", "MaskUnique":
 		if !needAl() {
@@ -791,7 +797,7 @@ func (g *heapGen) args(h *heapRun, op string, recv int, o *obj) *Step {
 		if op == "MaskOccurences" {
 			a["max"] = f64(g.rng.Intn(n + 2))
 		}
-		a["repl"] = toIface(s2i([]string{"", "AMBIG", "GAP", "MAJ", "Z", "zz", "MAJ"}[g.rng.Intn(7)]))
+		a["repl"] = toIface(s2i([]string{"", "AMBIG", "GAP", "MAJ", "Z", "zz", "MAJ", "n"}[g.rng.Intn(8)]))
 	case "MaxCharStats", "Consensus":
 		if !needAl() || L < 0 || n == 0 {
 			return nil
